@@ -407,7 +407,7 @@ def explore(ctx, strategy, check, n, label):
 
 def run_shard(ctx):
     def counted(case, ctx_):
-        for k in list(EXCLUDED) + gen.LAYOUT_TRIGGERS + ['nested_then_ancestor']:
+        for k in list(EXCLUDED) + ['end_gap', 'endjoin_iface', 'bind_kw_nocolon', 'nested_then_ancestor']:
             ctx_.exclude(f'trigger {k} of a listed finding is never drawn (cases generated without it)')
         check_case(case, ctx_)
     prof = PROFILE
